@@ -10,7 +10,7 @@ use crate::zfam;
 pub const INFO: CheckInfo = CheckInfo {
     prop: "C03",
     level: "model_checking",
-    rule: "bounded exhaustive enumeration of byte strings: the R4-built corpus (every token program of <= 2 (quick) / 3 (thorough) tokens over {lit, lit, match(3,1), match(4,2), match(10,1), match(258,1), match(257,3), match(3,4)} in fixed and dynamic blocks, stored blocks at all 8 bit offsets, every complete canonical code on <= 5 symbols incl. extremes, 15-bit codes, 286/30-symbol alphabets, +-1 length faults, illegal HLIT/HDIST) in raw / zlib / gzip wrappers (R3 headers with all field combinations) x {intact, trailing garbage, every truncation, every single-bit flip} x windowBits arguments (raw -8..-15, zlib 0/8..15, gzip 16+, auto 32+), plus all byte strings of length <= 2 (3 in thorough). Verdict (complete / need more / data error / need dict), output bytes and consumed length are compared with the reference R2+R3; when the reference says 'invalid' and zlib-rs still wants input, 16 padding bytes are appended and a data error is required. Disagreements where zlib-ng sides with zlib-rs are counted as model_divergence, not reported. distinct_nontrivial = distinct (verdict, output, consumed) outcomes.",
+    rule: "bounded exhaustive enumeration of byte strings: the R4-built corpus (every token program of <= 2 (quick) / 3 (thorough) tokens over {lit, lit, match(3,1), match(4,2), match(10,1), match(258,1), match(257,3), match(3,4)} in fixed and dynamic blocks, stored blocks at all 8 bit offsets, every complete canonical code on <= 5 symbols incl. extremes, 15-bit codes, 286/30-symbol alphabets, +-1 length faults, illegal HLIT/HDIST) in raw / zlib / gzip wrappers (R3 headers with all field combinations) x {intact, trailing garbage, every truncation, every single-bit flip} x windowBits arguments (raw -8..-15, zlib 0/8..15, gzip 16+, auto 32+), plus all byte strings of length <= 2 (3 in thorough); every intact valid stream is also decoded into a buffer of exactly the decoded size + {0,1,2,7,8,15,16,31,32,33,63,64} bytes (Z_FINISH and Z_NO_FLUSH). Verdict (complete / need more / data error / need dict), output bytes and consumed length are compared with the reference R2+R3; when the reference says 'invalid' and zlib-rs still wants input, 16 padding bytes are appended and a data error is required. Disagreements where zlib-ng sides with zlib-rs are counted as model_divergence, not reported. distinct_nontrivial = distinct (verdict, output, consumed) outcomes.",
     assumptions: &["R2/R3/R4 trusted (self-tested against zlib-ng at start-up)", "zlib's non-strict reading: 32 KiB history whatever window is announced; incomplete codes only when all codes have length 1", "strings that are neither in the corpus nor <= 2/3 bytes long are not covered"],
     bound_quick: "token programs <= 2, H-codes with 2 fault positions, all strings <= 2 bytes, every bit flip/truncation of streams <= 300 bytes",
     bound_thorough: "token programs <= 3, all H-code fault positions, all strings <= 3 bytes, byte substitutions 0x00/0xff",
@@ -146,7 +146,24 @@ pub fn run(ctx: &mut Ctx) {
                 if it.mut_idx != 0 {
                     c.nontrivial();
                 }
-                judge(c, &env, it.wb, it.bytes)
+                judge(c, &env, it.wb, it.bytes)?;
+                // a valid stream decoded into a buffer of exactly the decoded size, or a few bytes more (how
+                // one-shot callers size their buffers): copies that end at or near the end of the room
+                if it.intact_valid {
+                    let want = it.gen.expected.as_ref().unwrap();
+                    if !want.is_empty() && want.len() <= 70000 {
+                        for k in [0usize, 1, 2, 7, 8, 15, 16, 31, 32, 33, 63, 64] {
+                            c.exec();
+                            let s = ISched { steps: vec![IStep { n: AMPLE, room: want.len() + k, flush: if k % 2 == 0 { Z_FINISH } else { Z_NO_FLUSH } }], tail_in: AMPLE, tail_room: AMPLE, tail_flush: Z_NO_FLUSH };
+                            let t = run_inflate::<Rs>(it.wb, it.bytes, &s, &env, &IExtra { expect_out: want.len(), ..Default::default() }, None)?;
+                            if t.fin != Fin::StreamEnd || t.out != *want || t.consumed != it.bytes.len() {
+                                return Err(format!("decoding into a buffer of the decoded size + {k} bytes: {:?} after {} of {} bytes, {} bytes out (first difference at {:?}); with ample room the stream is accepted", t.fin, t.consumed, it.bytes.len(), t.out.len(), t.out.iter().zip(want).position(|(a, b)| a != b)));
+                            }
+                        }
+                        c.count("exact_size_output_runs", 12);
+                    }
+                }
+                Ok(())
             },
         );
     });
